@@ -281,6 +281,58 @@ def check_eval(acc, ri, rl, ei, el, t, tname):
     acc.outcome(tuple(round(float(v), 9) for v in a.values())[:5])
 
 
+def check_eval_respell(acc, ri, rl, ei, el, which, pos):
+    """respell ONE occurrence of a label (reference or estimate side, interval `pos`): no chord.evaluate score may
+    change, in particular over/under-segmentation, which merges equal neighbours"""
+    case = {"kind": "chordrespell", "ri": ri, "rl": rl, "ei": ei, "el": el, "which": which, "pos": pos}
+    rl2, el2 = list(rl), list(el)
+    tgt = rl2 if which == "ref" else el2
+    alt = respell_label(tgt[pos])
+    if alt is None:
+        return
+    tgt[pos] = alt
+    acc.transitions += 2
+    with warnings.catch_warnings():
+        warnings.simplefilter("ignore")
+        try:
+            a = chord.evaluate(A(ri, dtype=float), list(rl), A(ei, dtype=float), list(el))
+        except Exception:  # noqa
+            acc.counters["chord.source_raises"] += 1
+            return
+        try:
+            b = chord.evaluate(A(ri, dtype=float), rl2, A(ei, dtype=float), el2)
+        except Exception as ex:  # noqa
+            acc.violation("chord-respell", "chord.evaluate", case, observed="raised %s: %s" % (type(ex).__name__, ex))
+            return
+    acc.counters["chord.evaluate_respelled_occurrences"] += 1
+    for k in a:
+        if not (abs(float(a[k]) - float(b[k])) <= 1e-12):
+            acc.violation("chord-respell", "chord.evaluate", case, observed={k: [float(a[k]), float(b[k])]})
+            return
+
+
+def shard_eval_respell(arg):
+    roots, bodies_ = arg
+    acc = core.Acc(PID)
+    for r in roots:
+        for b in bodies_:
+            lab = r + b
+            for other in ("N", "G:7", lab):
+                # the label occurs in two consecutive intervals (and once more later): one occurrence is respelled
+                for seq in ((lab, lab, other), (other, lab, lab), (lab, other, lab)):
+                    for ri, ei in ((SEQS[0], SEQS[1]), (SEQS[0], SEQS[0])):
+                        el = (lab, other, lab)[:len(ei)]
+                        acc.states += 1
+                        acc.nontrivial += 1
+                        acc.tick({"kind": "chordrespell", "ri": ri, "rl": seq, "ei": ei, "el": el, "which": "ref", "pos": 1})
+                        for pos in range(3):
+                            check_eval_respell(acc, ri, seq, ei, el, "ref", pos)
+                        for pos in range(len(el)):
+                            check_eval_respell(acc, ei if len(ei) == 3 else SEQS[0], el if len(el) == 3 else seq,
+                                               ri, seq, "est", pos if len(el) == 3 else min(pos, 2))
+    return acc
+
+
 def shard_eval(arg):
     tier, phase, labelsets = arg
     acc = core.Acc(PID)
@@ -309,6 +361,9 @@ def replay(case, acc):
         check_key(acc, case["ref"], case["est"], case["t"], case["spelling"])
     elif k == "chordpair":
         check_chord_pair(acc, case)
+    elif k == "chordrespell":
+        check_eval_respell(acc, _t(case["ri"]), _t(case["rl"]), _t(case["ei"]), _t(case["el"]), case["which"],
+                           case["pos"])
     elif k == "chordeval":
         check_eval(acc, _t(case["ri"]), _t(case["rl"]), _t(case["ei"]), _t(case["el"]), case["t"], case["spelling"])
     elif k == "pair":
@@ -341,10 +396,14 @@ def run(run):
     labelsets = [tuple(pool[(i + j * 3) % len(pool)] for j in range(4)) for i in range(len(pool))]
     run.explore("chord.evaluate under joint transposition", __name__, "shard_eval",
                 [(tier, ph, ch) for ch in core.chunks(labelsets, 15)])
+    rroots = sorted(r for r in RESPELL if len(r) <= 2)
+    run.explore("chord.evaluate with one occurrence respelled", __name__, "shard_eval_respell",
+                [([r], ["", ":maj", ":min", ":7", ":min7/b3", ":sus4"]) for r in rroots])
     for name in base.tasks():
         task = base.load(name)
         kinds = [k for k in ("pitchscale", "octave", "negate") if k in getattr(task, "edges", {})]
         if kinds:
             run.explore("%s %s edges" % (name, "/".join(kinds)), "mc.generic", "shard_edges",
                         generic.edge_plan(PID, name, tier, ph, kinds))
-    run.require_nonvacuous("chord.transposition_blocks", "chord.respelling_blocks")
+    run.require_nonvacuous("chord.transposition_blocks", "chord.respelling_blocks",
+                           "chord.evaluate_respelled_occurrences")
